@@ -140,7 +140,30 @@ func loadProg(needSSA bool) (*Prog, error) {
 		}
 		p.SSAPkg[shortPath(sp.Pkg.Path())] = sp
 	}
-	for fn := range ssautil.AllFunctions(prog) {
+	all := ssautil.AllFunctions(prog)
+	// methods of every module type, also of a type nothing uses yet (AllFunctions only has
+	// the methods of types that reach an interface)
+	for _, sp := range p.SSAPkg {
+		for _, mem := range sp.Members {
+			tm, ok := mem.(*ssa.Type)
+			if !ok || types.IsInterface(tm.Type()) {
+				continue
+			}
+			named, ok := tm.Type().(*types.Named)
+			if !ok || named.TypeParams() != nil {
+				continue
+			}
+			for _, T := range []types.Type{named, types.NewPointer(named)} {
+				ms := prog.MethodSets.MethodSet(T)
+				for i := 0; i < ms.Len(); i++ {
+					if f := prog.MethodValue(ms.At(i)); f != nil {
+						all[f] = true
+					}
+				}
+			}
+		}
+	}
+	for fn := range all {
 		if fn.Pkg == nil || fn.Pkg.Pkg == nil || !isProdPkgPath(fn.Pkg.Pkg.Path()) {
 			// instantiated generics of other packages, wrappers: pkg may be nil
 			continue
